@@ -22,6 +22,9 @@ type c04Scn struct {
 	TCPPing  bool          `json:"tcp_pings"`
 	Compress bool          `json:"compress"`
 	Enc      bool          `json:"encrypt"`
+	// encryption roll-out stage: every node has the keyring, accepts cleartext as well
+	// (GossipVerifyIncoming off) and odd-numbered nodes still send cleartext (GossipVerifyOutgoing off)
+	Rollout bool `json:"encryption_rollout_stage,omitempty"`
 	Label    string        `json:"label"`
 	JoinMode string        `json:"join_mode"` // burst | staggered
 	Ops      int           `json:"ops"`
@@ -39,6 +42,8 @@ type healthyTap struct {
 	maxRTT    time.Duration
 	acks      int64
 	streamBuf map[string][]byte // connID|dir -> bytes
+	// roll-out stage: cleartext and sealed traffic are both legitimate
+	cleartextToo bool
 }
 
 func (h *healthyTap) note(f string, a ...any) {
@@ -51,7 +56,13 @@ func (h *healthyTap) onPacket(ev *PacketEvent) {
 	if ev.Closed {
 		return // attempt on a transport its owner already shut down: never reached the network
 	}
-	pi := ParsePacket(ev.Buf, h.keys)
+	h.mu.Lock()
+	keys, mixed := h.keys, h.cleartextToo
+	h.mu.Unlock()
+	pi := ParsePacket(ev.Buf, keys)
+	if pi.Err != nil && mixed {
+		pi = ParsePacket(ev.Buf, nil) // roll-out stage: some members still send in clear
+	}
 	h.mu.Lock()
 	defer h.mu.Unlock()
 	if pi.Err != nil {
@@ -91,6 +102,9 @@ func (h *healthyTap) finishStreams() {
 	defer h.mu.Unlock()
 	for k, raw := range h.streamBuf {
 		_, frames, err := ParseStream(raw, h.keys, h.label)
+		if err != nil && h.cleartextToo {
+			_, frames, err = ParseStream(raw, nil, h.label)
+		}
 		if err != nil {
 			h.note("unparsable stream %s: %v", k, err)
 			continue
@@ -149,7 +163,8 @@ func runC04(run *Run, seed int64, sc c04Scn, rng *rand.Rand) (out []*c01Result, 
 	if sc.Enc {
 		key = bytes.Repeat([]byte{0x42}, 16)
 	}
-	tap := &healthyTap{byType: map[string]int64{}, streamBuf: map[string][]byte{}, label: sc.Label}
+	curKeys := [][]byte{key} // what a node created now must be given (primary first)
+	tap := &healthyTap{byType: map[string]int64{}, streamBuf: map[string][]byte{}, label: sc.Label, cleartextToo: sc.Rollout}
 	if key != nil {
 		tap.keys = [][]byte{key}
 	}
@@ -169,8 +184,12 @@ func runC04(run *Run, seed int64, sc c04Scn, rng *rand.Rand) (out []*c01Result, 
 			}
 			cf.ProtocolVersion = uint8(pv)
 			if key != nil {
-				ring, _ := memberlist.NewKeyring(nil, key)
+				ring, _ := memberlist.NewKeyring(curKeys, curKeys[0])
 				cf.Keyring = ring
+				if sc.Rollout {
+					cf.GossipVerifyIncoming = false
+					cf.GossipVerifyOutgoing = i%2 == 0
+				}
 			}
 			cf.PushPullInterval = 10 * time.Second
 		}})
@@ -261,6 +280,7 @@ func runC04(run *Run, seed int64, sc c04Scn, rng *rand.Rand) (out []*c01Result, 
 	var leavers []*SimNode
 	allLeftAt := map[*SimNode]time.Time{}
 	nextID := sc.N
+	rotPhase := 0
 	for time.Now().Before(end) {
 		time.Sleep(250 * time.Millisecond)
 		polls++
@@ -284,7 +304,7 @@ func runC04(run *Run, seed int64, sc c04Scn, rng *rand.Rand) (out []*c01Result, 
 			}
 			a := live[rng.Intn(len(live))]
 			b := live[rng.Intn(len(live))]
-			switch op := rng.Intn(7); op {
+			switch op := rng.Intn(8); op {
 			case 0:
 				metaGen++
 				a.Del.SetMeta([]byte(fmt.Sprintf("meta-%s-%d", a.Name, metaGen)))
@@ -329,6 +349,12 @@ func runC04(run *Run, seed int64, sc c04Scn, rng *rand.Rand) (out []*c01Result, 
 					go func() { _, _ = a.ML().Join([]string{b.EP.Addr}) }()
 					run.Cell("op", "rejoin")
 				}
+			case 7:
+				// key rotation, one phase per poll: install everywhere, use everywhere, remove the old one
+				if key != nil && !sc.Rollout && rotPhase == 0 {
+					rotPhase = 1
+					run.Cell("op", "key-rotation")
+				}
 			case 6:
 				// a brand-new member arrives while everything else goes on
 				if nextID < sc.N+3 {
@@ -346,6 +372,34 @@ func runC04(run *Run, seed int64, sc c04Scn, rng *rand.Rand) (out []*c01Result, 
 					run.Cell("op", "late-join")
 				}
 			}
+		}
+		if rotPhase > 0 && rotPhase <= 3 {
+			k2 := bytes.Repeat([]byte{0x43}, 16)
+			for _, n := range c.Nodes {
+				if n.Stopped || n.Conf.Keyring == nil {
+					continue
+				}
+				switch rotPhase {
+				case 1:
+					_ = n.Conf.Keyring.AddKey(k2)
+				case 2:
+					_ = n.Conf.Keyring.UseKey(k2)
+				case 3:
+					_ = n.Conf.Keyring.RemoveKey(key)
+				}
+			}
+			switch rotPhase {
+			case 1:
+				tap.mu.Lock()
+				tap.keys = [][]byte{k2, key}
+				tap.mu.Unlock()
+				curKeys = [][]byte{key, k2}
+			case 2:
+				curKeys = [][]byte{k2, key}
+			case 3:
+				curKeys = [][]byte{k2}
+			}
+			rotPhase++
 		}
 		// a leaver keeps answering until every peer has recorded the departure
 		for _, leaver := range leavers {
@@ -418,6 +472,7 @@ func TestC04(t *testing.T) {
 			TCPPing:  rng.Intn(3) > 0,
 			Compress: rng.Intn(2) == 0,
 			Enc:      rng.Intn(3) == 0,
+			Rollout:  i%4 == 1,
 			Label:    []string{"", "", "cluster-a"}[rng.Intn(3)],
 			JoinMode: []string{"burst", "staggered"}[rng.Intn(2)],
 			Ops:      rng.Intn(12),
@@ -425,6 +480,9 @@ func TestC04(t *testing.T) {
 		}
 		if i%7 == 0 {
 			sc.N = 16
+		}
+		if sc.Rollout {
+			sc.Enc = true
 		}
 		run.Journal(id, fmt.Sprintf("%+v", sc))
 		var res []*c01Result
